@@ -581,7 +581,9 @@ let () = register "hostile" (fun args ->
     if L.length args < 2 then "-" else
     let impl = S.split_on_char '|' (L.nth args 1) in
     if L.mem "panic" impl then "bad:panic" else if L.mem "hang" impl then "bad:hang"
-    else if L.exists (fun p -> S.length p > 5 && S.sub p 0 5 = "alloc") impl then "bad:alloc" else "ok" in
+    else if L.exists (fun p -> S.length p > 5 && S.sub p 0 5 = "alloc") impl then "bad:alloc"
+    else if L.mem "merged-panic" impl then "bad:panic through a merged view"
+    else if L.mem "merged-hang" impl then "bad:hang through a merged view" else "ok" in
   (S.concat "|" parts, oracle))
 
 (* ---- C09, last clause: the update index after a compaction emptied the stack ---- *)
@@ -602,6 +604,15 @@ let () = register "idxrestart" (fun args ->
     (try Scanf.sscanf (L.nth args 1) "committed<=%d next=%d tables=%d" (fun c n _ -> if n > c then "ok" else "bad:c09-index-restart")
      with _ -> "bad:format") in
   (model, oracle))
+
+let () = register "hostilebomb" (fun args ->
+  let impl = if L.length args < 2 then "" else L.nth args 1 in
+  let parts = S.split_on_char '|' impl in
+  let oracle =
+    if L.mem "panic" parts then "bad:panic" else if L.mem "hang" parts then "bad:hang"
+    else if L.exists (fun p -> S.length p > 5 && S.sub p 0 5 = "alloc") parts then "bad:alloc"
+    else if L.mem "merged-panic" parts || L.mem "merged-hang" parts then "bad:merged" else "ok" in
+  (impl, oracle))
 
 (* ---- stack protocol traces: C04 C05 C06 C08 C09 C10 C16 ---- *)
 open StackTrace
